@@ -40,7 +40,7 @@ def mutate_hex(rnd, h):
 
 
 MUTABLE = {"RUN": (5, 6), "RUNV": (5, 6), "SESSION": (5, 6, 7), "SESSIONV": (5, 6, 7), "EXEC": (5, 6, 7, 9), "FLAGS": (1,), "SN": (1,),
-           "TXPARSE": (1,), "AMOUNT": (1,), "TXARG": (1,), "SPEND": (1, 2, 6, 8, 9), "TCE": (1, 2, 3), "PRUN": (1, 6, 7)}
+           "TXPARSE": (1,), "AMOUNT": (1,), "TXARG": (1,), "SPEND": (1, 2, 6, 8, 9), "SPENDR": (1, 2, 6, 8, 9), "TCE": (1, 2, 3), "PRUN": (1, 6, 7)}
 
 
 def mutate_line(rnd, l):
